@@ -75,6 +75,17 @@ def check_script(sc):
     if st == "exc":
         return ("C02/load-raises:" + type(p).__name__, common.exc_sig(p))
     errs = denote.compare(m, p)
+    if not errs and len(text) % 8 == 0:
+        # what a caller does to a returned program is its own business: the same text loaded again still denotes the same
+        p.operations.append({"op": "Appended", "modes": [99]})
+        if p.operations and p.operations[0].get("args"):
+            p.operations[0]["args"][0] = "changed"
+        p.target["options"]["changed"] = 1
+        p.modes.add(99)
+        st, p = common.loads(text)
+        if st == "exc":
+            return ("C02/second-load-raises:" + type(p).__name__, common.exc_sig(p))
+        errs = ["second-load:" + e for e in denote.compare(m, p)]
     if not errs:
         return None
     # classifier: is the only difference that keywords whose value is the empty list are missing?
